@@ -26,6 +26,17 @@ func main() {
 			os.Exit(2)
 		}
 		os.Exit(cmdReplay(os.Args[2]))
+	case "gentwice":
+		// helper of C12: generate one schema file several times in THIS (fresh) process and print the outputs separated
+		// by a marker line, so that the caller can compare the first generation of a process with its later ones
+		if len(os.Args) < 3 {
+			os.Exit(2)
+		}
+		for _, out := range checks.GenSeveralTimes(os.Args[2], 3) {
+			fmt.Print(out)
+			fmt.Println("\n=====VERIF-GENERATION-END=====")
+		}
+		os.Exit(0)
 	case "check":
 		if len(os.Args) < 4 {
 			fmt.Fprintln(os.Stderr, "usage: verif check <ID> <quick|thorough>")
